@@ -3,6 +3,7 @@ import TracklibVerif.Model.GraphPD
 import TracklibVerif.Model.GraphSession
 import TracklibVerif.Model.GraphAStar
 import TracklibVerif.Model.GraphShared
+import TracklibVerif.Model.GraphPrepFile
 import TracklibVerif.Drv.Util
 /-! Driver handler for C06 (network shortest distances), weights in `Rat` (exact stream) or `Float`
 (commands prefixed with `f`: weights, cut-offs and results are IEEE-754 bit patterns, the same model definitions instantiated at `Float`).
@@ -26,6 +27,7 @@ A graph is `<n> <edges>`: nodes `0..n-1`, edges `id,src,tgt,w,ori` separated by 
                                          · `d,<s>,<t>,<cut>,<0|1>` shortest_distance · `l,<s>,<cut>,<0|1>` list form · `a,<cut>,<0|1>`
                                          all_shortest_distances · `p,<cut>` prepare · `q,<s>,<t>` prepared_shortest_distance ·
                                          `h,<s>,<t>` has_prepared_shortest_distance · `s,<s>,<cut>` sub_network (TOPOLOGIC) · `v` save_prep + load_prep ·
+                                         `S,<name>` save_prep(name) · `L,<name>` load_prep(name) (file names: no `,` `;` or blank; `Model/GraphPrepFile.lean`) ·
                                          `u` (read the caller's output_dict; `<0|1>` = whether that dictionary is passed);
                                          reply per op (`;`): `ok` / `err` / `f:<poids,…>|<visite,…>` / `v:<d>` / `l:<d,…>` /
                                          `t:<s>.<v>.<d>,…` / `b:<0|1>` / `s:<node ids>|<edge ids>`
@@ -227,15 +229,22 @@ def op? (s : String) : Option (Op Rat) :=
   | ["v"] => some .saveLoad
   | _ => none
 
-def sessRun (n : Nat) (σ : Sess Rat) : List String → Option (List String)
+def fop? (s : String) : Option (FOp Rat) :=
+  match splitTok s ',' with
+  | ["S", f] => some (.save f.toList)
+  | ["L", f] => some (.load f.toList)
+  | _ => (op? s).map .call
+
+/-- the object together with the files its `save_prep` wrote (`Model/GraphPrepFile.lean`) -/
+def sessRun (n : Nat) (x : SessF Rat) : List String → Option (List String)
   | [] => some []
   | op :: rest =>
-    if op == "u" then (sessRun n σ rest).map (s!"t:{showTable n σ.udict}" :: ·)
+    if op == "u" then (sessRun n x rest).map (s!"t:{showTable n x.sess.udict}" :: ·)
     else
-      match op? op with
+      match fop? op with
       | none => none
       | some o =>
-        let r := exec σ o
+        let r := execF x o
         (sessRun n r.1 rest).map (showOut n r.2 :: ·)
 
 /-! several `Network` objects on one pool of `Node` objects (`Model/GraphShared.lean`) -/
@@ -423,7 +432,7 @@ def handle (cmd : String) (args : List String) : String :=
   | "sess", [n, ops] =>
     match n.toNat? with
     | some n =>
-      match sessRun n (Sess.new n) (splitTok ops ';') with
+      match sessRun n (SessF.new n) (splitTok ops ';') with
       | some out => joinWith ";" out
       | none => "bad-request"
     | none => "bad-request"
